@@ -7,6 +7,7 @@ import (
 	"os"
 	"os/exec"
 	"path/filepath"
+	"sort"
 	"strings"
 	"time"
 
@@ -16,12 +17,21 @@ import (
 
 func suiteV04(c *vctx) {
 	r := c.r
-	nsc := 1
+	nsc := 2
 	if c.thorough() {
 		nsc = 6
 	}
 	for sc := 0; sc < nsc; sc++ {
-		a, err := newVAgent(c, fmt.Sprintf("fr%d", sc), 1+r.Intn(2), "", "", "", "")
+		// odd scenarios: local hash upgrades and a password policy are configured, the records are
+		// under the non-default parameter set and several passwords fail the policy — logins then
+		// trigger internal upgrades that succeed for some users and are refused for others; the
+		// verdict of every frontend must still be the store's
+		upg, polT, polC := "", "", ""
+		dflt := 1 + r.Intn(2)
+		if sc%2 == 1 {
+			upg, polT, polC = "local", "zxcvbn", "score >= 3"
+		}
+		a, err := newVAgent(c, fmt.Sprintf("fr%d", sc), dflt, upg, polT, polC, "")
 		if err != nil {
 			c.emit("law.C04.agent_starts "+vxs(err.Error()), "f")
 			continue
@@ -34,11 +44,24 @@ func suiteV04(c *vctx) {
 			"a@b": "at-Passw0rd", "A.b-c_d@e": " lead and trail ", "alice@example.com": "mail-Passw0rd", "a@b@c": "two-ats", "u255": long255, "u256": long256, "u257": long257,
 			"x": "x", "nul": "nul\x00byte", "bin": "\xff\xfe\x80bin",
 		}
-		a.iface.Init("root", pws["root"])
-		for u, p := range pws {
-			a.pws[p] = true
-			if u != "root" {
-				a.iface.Add(u, p, u == "carol")
+		if sc%2 == 1 {
+			// through the library (no policy there), under the other parameter set
+			a.ref.Default = uint(3 - dflt)
+			a.ref.Init("root", pws["root"])
+			for _, u := range sortedKeys(pws) {
+				a.pws[pws[u]] = true
+				if u != "root" {
+					a.ref.AddUser(u, pws[u], u == "carol")
+				}
+			}
+			a.ref.Default = uint(dflt)
+		} else {
+			a.iface.Init("root", pws["root"])
+			for _, u := range sortedKeys(pws) {
+				a.pws[pws[u]] = true
+				if u != "root" {
+					a.iface.Add(u, pws[u], u == "carol")
+				}
 			}
 		}
 		// a saslauthd socket served by the real agent code
@@ -69,33 +92,42 @@ func suiteV04(c *vctx) {
 			}
 			u := names[r.Intn(len(names))]
 			var p string
-			switch r.Intn(6) {
-			case 0, 1:
-				p = pws[u] // the right password (if the user exists)
-			case 2: // near misses of the right password
-				q := pws[names[r.Intn(14)]]
+			if r.Intn(8) == 0 {
+				// a realm-suffixed form of an existing user's name (itself an existing user or not)
+				// with the BASE user's password: only LDAP may cut the name
+				base := []string{"alice", "a", "root", "bob", "x", "a@b"}[r.Intn(6)]
+				u = base + "@" + []string{"example.com", "example.org", "b", "b@c", "", "nowhere"}[r.Intn(6)]
+				names14 := pws[base]
+				p = names14
+			} else {
 				switch r.Intn(6) {
-				case 0:
-					p = strings.ToUpper(q)
-				case 1:
-					p = strings.TrimSpace(q)
-				case 2:
-					p = q + " "
-				case 3:
-					if len(q) > 1 {
-						p = q[:len(q)-1]
+				case 0, 1:
+					p = pws[u] // the right password (if the user exists)
+				case 2: // near misses of the right password
+					q := pws[names[r.Intn(14)]]
+					switch r.Intn(6) {
+					case 0:
+						p = strings.ToUpper(q)
+					case 1:
+						p = strings.TrimSpace(q)
+					case 2:
+						p = q + " "
+					case 3:
+						if len(q) > 1 {
+							p = q[:len(q)-1]
+						}
+					case 4:
+						p = q + "\x00"
+					default:
+						p = strings.Split(q, ":")[0]
 					}
+				case 3:
+					p = pws[names[r.Intn(14)]] // another user's password
 				case 4:
-					p = q + "\x00"
+					p = ""
 				default:
-					p = strings.Split(q, ":")[0]
+					p = string(r.Bytes(1 + r.Intn(12)))
 				}
-			case 3:
-				p = pws[names[r.Intn(14)]] // another user's password
-			case 4:
-				p = ""
-			default:
-				p = string(r.Bytes(1 + r.Intn(12)))
 			}
 			refOk, _, _, _, _ := a.ref.Authenticate(u, p)
 			id := fmt.Sprintf("%s %s", vxs(u[:min(len(u), 300)]), vxs(p[:min(len(p), 300)]))
@@ -185,6 +217,15 @@ func suiteV04(c *vctx) {
 		}
 		os.Remove(sock)
 	}
+}
+
+func sortedKeys(m map[string]string) []string {
+	var k []string
+	for x := range m {
+		k = append(k, x)
+	}
+	sort.Strings(k)
+	return k
 }
 
 func init() { vsuites["v04"] = suiteV04 }
